@@ -186,6 +186,19 @@ def extract(repo):
     m = re.search(r"STEPfile\s+sfile\(\s*registry\s*,\s*instance_list\s*,\s*\"\"\s*,\s*strict\s*\)\s*;", pr)
     if not m:
         raise ValueError("p21read: STEPfile construction with strict flag not found")
+    # option parsing of p21read: a getopt clone that walks through EVERY letter of a flag cluster (`-ts`), stops at `--` and at
+    # the first argument that is not a flag; the option letters
+    gm = re.search(r"int\s+sc_getopt\s*\(", pr)
+    if not gm:
+        raise ValueError("p21read: sc_getopt not found (option parsing changed)")
+    gb = _body(pr, "int sc_getopt(")
+    cluster = bool(re.search(r"if\s*\(\s*next\s*==\s*NULL\s*\|\|\s*\*next\s*==\s*'\\0'\s*\)", gb) and re.search(r"char\s+c\s*=\s*\*next\+\+\s*;", gb))
+    dashdash = bool(re.search(r"strcmp\(\s*argv\[sc_optind\]\s*,\s*\"--\"\s*\)\s*==\s*0", gb))
+    stops = bool(re.search(r"argv\[sc_optind\]\[0\]\s*!=\s*'-'\s*\|\|\s*argv\[sc_optind\]\[1\]\s*==\s*'\\0'", gb))
+    om = re.search(r"char\s+opts\[\]\s*=\s*\"(\w+)\"\s*;\s*while\s*\(\s*\(\s*c\s*=\s*sc_getopt\(\s*argc\s*,\s*argv\s*,\s*opts\s*\)\s*\)\s*!=\s*-1\s*\)", pr)
+    if not (cluster and dashdash and stops and om):
+        raise ValueError("p21read: the option loop no longer has the getopt shape (clusters / `--` / stop at first non-flag)")
+    opt_letters = om.group(1)
     m = re.search(r"bool\s+strict\s*=\s*(true|false)\s*;.*?case\s*'s'\s*:\s*strict\s*=\s*(true|false)\s*;", pr, re.S)
     if not m:
         raise ValueError("p21read: -s option not found")
@@ -240,5 +253,7 @@ def extract(repo):
     L.append(f"def p21readExitThreshold : Sev := {_sev(exit_thr)}")
     L.append(f"def p21readStrictDefault : Bool := {p21_default}")
     L.append(f"def p21readStrictWithDashS : Bool := {p21_dash_s}")
+    L.append("/-- p21read's option letters (getopt string); every letter of a flag cluster is applied, `--` and the first argument that is not a flag end the options -/")
+    L.append(f"def p21readOptLetters : List Char := [" + ", ".join(f"'{c}'" for c in opt_letters) + "]")
     L.append("\nend StepModel.Generated\n")
     return {"AttrNullGen.lean": "\n".join(L)}
